@@ -18,7 +18,8 @@ LEVEL = "exploration"
 RULE = ("cases are (valid document built from structure: 1..3 paragraphs, unique field names, "
         "field comments, interior comments, 10 first-line layouts x 7 continuation shapes, free "
         "comments between paragraphs, with/without final newline) x 1..5 set/add/del operations "
-        "with single- and multi-line values; the dump is compared with the model's bytes after "
+        "with single- and multi-line values (keys as names in any case or as field-name tokens; "
+        "deletion by del, pop() or clear(); assignment through 5 documented routes; refused values); the dump is compared with the model's bytes after "
         "EVERY operation and a fresh parse at the end. Non-trivial = the history touches a "
         "multi-line or commented field, or the document lacks its final newline, or >=2 "
         "operations hit the same paragraph; distinct = distinct canonical JSON")
@@ -64,7 +65,9 @@ def check(case):
                 continue
             f = p[op[2] % len(p)]
             touched_rich = touched_rich or bool(f["c"]) or f["b"].count("\n") > 1 or "\n" in op[3]
+            run.token_roles = ("key",) if op[4] >= 3 else ()
             run.do_set(pi, (spell(f["n"], op[4] % 3), None), op[3], what, route)
+            run.token_roles = ()
             # the spelling of an existing name is kept
             run.labels.add("set-existing")
         elif kind == "add":
@@ -84,8 +87,16 @@ def check(case):
                 continue
             f = p[op[2] % len(p)]
             touched_rich = touched_rich or bool(f["c"]) or f["b"].count("\n") > 1
-            run.do_del(pi, (spell(f["n"], op[3] % 3), None), what)
+            run.token_roles = ("key",) if op[3] >= 3 else ()
+            run.do_del(pi, (spell(f["n"], op[3] % 3), None), what, op[4] if len(op) > 4 else None)
+            run.token_roles = ()
             run.labels.add("del-existing")
+        elif kind == "clear":
+            # Mapping.clear(): deleting every field of the paragraph in one call
+            if not p:
+                continue
+            touched_rich = True
+            run.do_clear(pi, what)
         elif kind == "delmissing":
             if run.occ(p, op[2]):
                 continue
@@ -108,11 +119,13 @@ value = st.sampled_from(docs.VALUES)
 ROUTES = [None, None, None, "view", "view-noresolve", "simple", "raw"]
 BAD_VALUES = ["n\nunindented", "n\n\n c", "n\n c\n# trailing comment", "n\nB: injected", "n\n c\n\n"]
 op = st.one_of(
-    st.tuples(st.just("set"), st.integers(0, 5), st.integers(0, 5), value, st.integers(0, 2), st.sampled_from(ROUTES)),
+    st.tuples(st.just("set"), st.integers(0, 5), st.integers(0, 5), value, st.integers(0, 5), st.sampled_from(ROUTES)),
     st.tuples(st.just("setbad"), st.integers(0, 5), st.integers(0, 5), st.sampled_from(BAD_VALUES),
               st.integers(0, 2), st.sampled_from(ROUTES[:5])),
     st.tuples(st.just("add"), st.integers(0, 5), st.sampled_from(docs.NEW_NAMES), value, st.sampled_from(ROUTES)),
-    st.tuples(st.just("del"), st.integers(0, 5), st.integers(0, 5), st.integers(0, 2)),
+    st.tuples(st.just("del"), st.integers(0, 5), st.integers(0, 5), st.integers(0, 5),
+              st.sampled_from([None, None, "pop"])),
+    st.tuples(st.just("clear"), st.integers(0, 5)),
     st.tuples(st.just("delmissing"), st.integers(0, 5), st.sampled_from(["Nope", "zz"])),
 )
 case = st.fixed_dictionaries({"doc": docs.document(dups=False),
@@ -127,7 +140,8 @@ def small_docs():
            ["set", 0, 1, "n", 0, "view-noresolve"], ["set", 0, 1, "n\n c", 0, "raw"], ["set", 0, 0, "n", 0, "simple"],
            ["setbad", 0, 1, "n\nunindented", 0], ["setbad", 0, 0, "n\n\n c", 2, "view"],
            ["add", 0, "New", "n\n c"], ["del", 0, 0, 2], ["del", 0, 1, 0],
-           ["add", 1, "Zed", ""], ["set", 1, 0, "  n m ", 2]]
+           ["add", 1, "Zed", ""], ["set", 1, 0, "  n m ", 2],
+           ["del", 0, 1, 3], ["del", 0, 0, 0, "pop"], ["set", 0, 1, "n", 3], ["clear", 0]]
     for tail in ["", "# trailing\n"]:
         for fin in (True, False):
             for b1 in bodies:
@@ -142,7 +156,8 @@ def small_docs():
                                  "tail": tail, "final_nl": fin}
                             for o1 in ops:
                                 yield {"doc": d, "ops": [o1], "view": False}
-                                for o2 in ops[2:5] + ops[8:9]:
+                                for o2 in ops[2:5] + ops[8:9] + (
+                                        [["add", 0, "alpha", "n"], ["add", 0, "BETA", "n"]] if o1[0] == "clear" else []):
                                     yield {"doc": d, "ops": [o1, o2], "view": True}
 
 
